@@ -791,7 +791,10 @@ json gen_api_step(Rng &r, int cl, int ctx, const std::vector<OptRef> &refs, cons
 			s["op"] = "rmsec";
 			std::string p = ref.decl["n"].get<std::string>();
 			if (fl & F_MULTI)
-				p += "=" + ((fl & F_TITLE) ? std::string(TITLES[r.below(NT)]) : std::to_string(r.below(3)));
+			{
+				static const char *badidx[] = {"1st", "0x", "2.0", "-1", " 1", "1 ", "0x1"};
+				p += "=" + ((fl & F_TITLE) ? std::string(TITLES[r.below(NT)]) : (r.chance(1, 4) ? std::string(badidx[r.below(7)]) : std::to_string(r.below(3))));
+			}
 			s["name"] = p;
 		} else if ((fl & F_TITLE) && (fl & F_MULTI)) {
 			s["op"] = "addtsec";
